@@ -106,7 +106,7 @@ for sharded in (False, True):
 # singular (rank-deficient) statistics with finite gradients of moderate magnitude: a thin parameter accumulates one
 # outer product per step, so its statistics stay singular; absolute and tiny relative ridge.
 for eigh in (False, True):
-  for rel, eps in ((False, 1e-6), (True, 1e-8), (True, 1e-6)):
+  for rel, eps in ((False, 1e-6), (True, 1e-8), (True, 1e-6), (True, 0.0)):
     cases += 1
     name = f"singular-statistics eigh={eigh} relative_eps={rel} eps={eps}"
     try:
@@ -138,4 +138,4 @@ for eigh in (False, True):
       add("distributed_shampoo.update", [name], f"raised {type(ex).__name__}: {str(ex)[:200]}")
 
 print(json.dumps({"cases": cases, "violations": viol,
-                  "bound": f"tier={tier}: {{replicated, sharded}} x 3 thresholds x {{Newton, eigh}} x a 7-step history with NaN/Inf/huge/zero/tiny gradients; {{Newton, eigh}} x 3 ridge settings x 6 steps of singular statistics; seed {seed}"}))
+                  "bound": f"tier={tier}: {{replicated, sharded}} x 3 thresholds x {{Newton, eigh}} x a 7-step history with NaN/Inf/huge/zero/tiny gradients; {{Newton, eigh}} x 4 ridge settings (incl. 0) x 6 steps of singular statistics; seed {seed}"}))
